@@ -1,4 +1,5 @@
 import Mercure.Lemmas.SysSafety
+import Mercure.Lemmas.SysProgress
 import Mercure.Generated.Facts
 /-
   C14 — No interleaving of hub operations panics, deadlocks or races.
@@ -26,6 +27,15 @@ theorem closed_implies_flag (kind : Kind) (size : Nat) (subs : List Sub) (ops : 
     ∀ b ∈ (reach Flags.repaired kind size subs ops sched).subs, b.outClosed = true → b.disconnected = true :=
   Safety.closed_implies_flag kind size subs ops wf sched
 
+/-- **No deadlock**: in every reachable state in which some operation has not returned, some thread
+    can take a step (locks are acquired in the order transport < liveMutex < outMutex; a read
+    transaction never waits for the transport lock; Close waits for readers only while holding it). -/
+theorem no_deadlock (kind : Kind) (size : Nat) (subs : List Sub) (ops : List Op)
+    (wf : WellFormed subs ops) (sched : List Nat)
+    (hn : (reach Flags.repaired kind size subs ops sched).allDone = false) :
+    ∃ i, (step (reach Flags.repaired kind size subs ops sched) i).moved = true :=
+  Progress.no_deadlock kind size subs ops wf sched hn
+
 /-- The obligation against /repo: all six repairs are in the sources (regenerated on every run),
     in particular MatchAny is only ever called under the exclusive transport lock. -/
 theorem repo_flags : Facts.sysFlags = Flags.repaired ∧ Facts.sysFlags.localMatchLocked = true := by decide
@@ -48,6 +58,7 @@ end Mercure.C14
 
 #print axioms Mercure.C14.no_panic
 #print axioms Mercure.C14.closed_implies_flag
+#print axioms Mercure.C14.no_deadlock
 #print axioms Mercure.C14.repo_flags
 #print axioms Mercure.C14.C14_counterexample_send_on_closed
 #print axioms Mercure.C14.C14_counterexample_double_close
